@@ -244,6 +244,10 @@ pub struct InterleavedCase {
     pub second: Op,
     /// the second draw happens inside a further layer pushed after the clip was popped
     pub nested: Option<(Fl, u8)>,
+    /// false: the clip is pushed before the layer and popped while the layer is open (see check_interleaved);
+    /// true: the clip is pushed *inside* the layer and popped only after pop_layer
+    #[serde(default)]
+    pub clip_inside: bool,
 }
 
 /// The statement leaves open what a draw *outside* the rectangle means once the clip the layer was pushed under
@@ -253,6 +257,9 @@ pub struct InterleavedCase {
 /// unclipped drawing exactly), so popping the clip before or after that draw must give bit-identical pixels
 /// inside the rectangle.
 pub fn check_interleaved(c: &InterleavedCase) -> CheckResult {
+    if c.clip_inside {
+        return check_clip_inside(c);
+    }
     let mut o = Outcome::new();
     o.fp = fp_of(c);
     let (x0, y0, x1, y1) = c.rect;
@@ -354,6 +361,72 @@ pub fn check_interleaved(c: &InterleavedCase) -> CheckResult {
     Ok(o)
 }
 
+
+/// The clip stack is unchanged by push_layer / pop_layer: a clip pushed while the layer is open is still in force
+/// after pop_layer, until its own pop_clip. Pushing the same clip rectangle just before the layer instead of just
+/// after it clips the same draws to the same rectangle, and the layer is composited through it either way, so
+/// the two histories give bit-identical pixels everywhere.
+fn check_clip_inside(c: &InterleavedCase) -> CheckResult {
+    let mut o = Outcome::new();
+    o.fp = fp_of(c);
+    let (x0, y0, x1, y1) = c.rect;
+    let run = |inside: bool| -> Vec<u32> {
+        let mut dt = new_target(c.w, c.h, &c.init);
+        if !inside {
+            dt.push_clip_rect(irect(x0, y0, x1, y1));
+        }
+        dt.push_layer_with_blend(c.opacity.0, BLEND_MODES[c.blend as usize]);
+        if inside {
+            dt.push_clip_rect(irect(x0, y0, x1, y1));
+        }
+        dt.set_transform(&to_transform(&c.xf));
+        apply(&mut dt, &c.first);
+        if let Some((op, bl)) = &c.nested {
+            dt.push_layer_with_blend(op.0, BLEND_MODES[*bl as usize]);
+            apply(&mut dt, &c.second);
+            dt.pop_layer();
+        }
+        dt.pop_layer();
+        // the clip is still in force here
+        apply(&mut dt, &c.second);
+        dt.pop_clip();
+        // and gone here
+        dt.set_transform(&Transform::identity());
+        dt.fill_rect(0.0, 0.0, 1.0, 1.0, &Source::Solid(SolidSource { r: 0x20, g: 0x40, b: 0x60, a: 0x80 }), &DrawOptions::new());
+        dt.get_data().to_vec()
+    };
+    let a = run(true);
+    let b = run(false);
+    for i in 0..a.len() {
+        o.judged += 1;
+        if a[i] != b[i] {
+            let (x, y) = (i as i32 % c.w, i as i32 / c.w);
+            return Err(format!(
+                "layer({}) pushed, clip rect ({},{})-({},{}) pushed inside it, {}, layer popped, {}, clip popped: pixel ({},{}) is {}, but {} when the same clip is pushed just before the layer instead (the clip stack is not touched by push_layer / pop_layer)",
+                blend_name(c.blend),
+                x0,
+                y0,
+                x1,
+                y1,
+                c.first.kind(),
+                c.second.kind(),
+                x,
+                y,
+                hex(a[i]),
+                hex(b[i])
+            ));
+        }
+    }
+    let outside_changed = (0..a.len()).any(|i| {
+        let (x, y) = (i as i32 % c.w, i as i32 / c.w);
+        !(x >= x0 && x < x1 && y >= y0 && y < y1) && !(x == 0 && y == 0)
+    });
+    o.nontrivial = outside_changed && a != c.init;
+    o.class("clip-pushed-inside-the-layer-and-popped-after-it");
+    o.class(c.second.kind());
+    Ok(o)
+}
+
 /// the geometry of a drawing op with an opaque source, SrcOver (to see where it lands)
 fn whitened_for_probe(op: &Op) -> Option<Op> {
     let white = SrcSpec::Solid(0xffff_ffff);
@@ -383,9 +456,10 @@ fn interleaved_strategy(ctx: &Ctx) -> BoxedStrategy<InterleavedCase> {
                 draw_op(&ctx, &d),
                 draw_op(&ctx, &d),
                 prop::option::weighted(0.3, (alpha_f(), blend_biased())),
+                prop::bool::weighted(0.35),
             )
         })
-        .prop_map(|((w, h), init, rect, op, bl, xf, first, second, nested)| InterleavedCase { w, h, init, rect, opacity: Fl(op), blend: bl, xf, first, second, nested: nested.map(|(a, b)| (Fl(a), b)) })
+        .prop_map(|((w, h), init, rect, op, bl, xf, first, second, nested, clip_inside)| InterleavedCase { w, h, init, rect, opacity: Fl(op), blend: bl, xf, first, second, nested: nested.map(|(a, b)| (Fl(a), b)), clip_inside })
         .boxed()
 }
 
@@ -394,7 +468,7 @@ pub fn property(ctx: &Ctx) -> Property {
     let c2 = ctx.clone();
     Property {
         id: "C06",
-        rule: "cases: properly nested histories with at least one push_layer_with_blend group (opacity in {0,1,0.5,1/255-neighbours,uniform}, 28 blend modes) at top level or under a clip (rect at an offset / partly off-surface / inverted, quarter-grid path), containing fills, fill_rects, masks, clear, image draws, quarter-pixel transform changes (one group in ten ends by setting a non-invertible transform, so that it is popped under it), balanced clip pushes and nested layers (depth <= 3), on non-transparent initial contents. Oracle: the group's inner ops are replayed without the layer on a separate transparent surface with the same transform and clip stack (nested layers judged recursively there); after pop every pixel must equal the compositor formula with source = isolated group pixel, coverage = round(255 opacity), clip coverage = product of pushed path coverages, blend = layer blend (exact at opacity 1 without partial clip, +-3/255 otherwise); outside the clip rectangle unchanged; the base surface must not change while the layer is open; push/pop leave the transform alone. part interleaved: clip rect at an offset, layer, a draw, then a second draw (any kind, any transform, in a third of the cases inside a further layer) made either after or before the clip is popped; pixels inside the rectangle must be bit-identical between the two orders; outside it, pixels that no draw reached must keep their value when the layer's blend mode keeps the destination under a transparent source. Non-trivial: opacity != 1, blend != SrcOver, nesting >= 2, layer origin != (0,0) or clear inside; distinct by hash of the case.",
+        rule: "cases: properly nested histories with at least one push_layer_with_blend group (opacity in {0,1,0.5,1/255-neighbours,uniform}, 28 blend modes) at top level or under a clip (rect at an offset / partly off-surface / inverted, quarter-grid path), containing fills, fill_rects, masks, clear, image draws, quarter-pixel transform changes (one group in ten ends by setting a non-invertible transform, so that it is popped under it), balanced clip pushes and nested layers (depth <= 3), on non-transparent initial contents. Oracle: the group's inner ops are replayed without the layer on a separate transparent surface with the same transform and clip stack (nested layers judged recursively there); after pop every pixel must equal the compositor formula with source = isolated group pixel, coverage = round(255 opacity), clip coverage = product of pushed path coverages, blend = layer blend (exact at opacity 1 without partial clip, +-3/255 otherwise); outside the clip rectangle unchanged; the base surface must not change while the layer is open; push/pop leave the transform alone. part interleaved: clip rect at an offset, layer, a draw, then a second draw (any kind, any transform, in a third of the cases inside a further layer) made either after or before the clip is popped; pixels inside the rectangle must be bit-identical between the two orders; outside it, pixels that no draw reached must keep their value when the layer's blend mode keeps the destination under a transparent source. A third of the cases push the clip *inside* the layer and pop it after pop_layer (with a draw in between that must still be clipped): bit-identical to the history that pushes the same clip just before the layer. Non-trivial: opacity != 1, blend != SrcOver, nesting >= 2, layer origin != (0,0) or clear inside; distinct by hash of the case.",
         assumptions: vec!["the inner draws themselves (on a plain surface) are judged by C02/C03/C05", "improperly interleaved stacks (popping inside a layer a clip pushed outside it): the statement does not say what a draw outside the layer's original clip means, so part interleaved only demands what holds under every reading (inside the rectangle, popping the clip before or after the draw is the same)"],
         parts: vec![part("group", 100_000, 1_500_000, move || strategy(&c), check), part("interleaved", 30_000, 600_000, move || interleaved_strategy(&c2), check_interleaved)],
         min_class_fraction: vec![
@@ -405,7 +479,8 @@ pub fn property(ctx: &Ctx) -> Property {
             ("group", "clear-inside-layer", 0.03),
             ("group", "layer-under-clip-path", 0.1),
             ("group", "popped-under-singular-transform", 0.015),
-            ("interleaved", "second-draw-reaches-beyond-the-layer", 0.3),
+            ("interleaved", "second-draw-reaches-beyond-the-layer", 0.15),
+            ("interleaved", "clip-pushed-inside-the-layer-and-popped-after-it", 0.2),
         ],
         panic_is_violation: false,
     }
